@@ -135,3 +135,15 @@ pub broadcast proof fn axiom_slice_eq_slice(a: &[u8], b: &[u8])
 pub broadcast group slice_eq { axiom_slice_eq_array, axiom_refslice_eq_array, axiom_slice_eq_slice }
 }
 pub use eq_axioms::slice_eq;
+
+// --- std functions vstd has no specification for (documented behaviour, assumed)
+pub assume_specification<T: Clone>[ <[T]>::to_vec ](s: &[T]) -> (r: Vec<T>)
+    ensures r@.len() == s@.len(), forall|i: int| 0 <= i < s@.len() ==> cloned::<T>(s@[i], #[trigger] r@[i]);
+pub assume_specification<T, const N: usize>[ <[T; N] as AsRef<[T]>>::as_ref ](a: &[T; N]) -> (r: &[T])
+    ensures r@ == a@;
+pub assume_specification<T, A: core::alloc::Allocator>[ <Vec<T, A> as AsRef<[T]>>::as_ref ](a: &Vec<T, A>) -> (r: &[T])
+    ensures r@ == a@;
+pub proof fn lemma_to_vec_u8(s: Seq<u8>, r: Seq<u8>)
+    requires r.len() == s.len(), forall|i: int| 0 <= i < s.len() ==> cloned::<u8>(s[i], #[trigger] r[i])
+    ensures r == s
+{ assert(r =~= s); }
